@@ -179,7 +179,7 @@ def describe(sc):
 
         def st(s):
             if s[0] == 'axiom': return 'axiom@m%d %s' % (s[1], B.show_ext(T.tup(s[2])))
-            if s[0] == 'lib': return '%s(%s)' % (s[1], ', '.join(B.show_ext(T.tup(a[1])) if a[0] == 'p' else '#%d' % a[1] for a in s[2]))
+            if s[0] == 'lib': return '%s(%s)' % (s[1], ', '.join(B.show_ext(T.tup(a[1])) if a[0] == 'p' else 'x%d' % a[1] if a[0] == 'v' else '#%d' % a[1] for a in s[2]))
             if s[0] == 'inst': return 'inst #%d {%s}' % (s[1], ', '.join('%d:%s' % (i, B.show_ext(T.tup(t))) for i, t in s[2]))
             if s[0] == 'taut': return 'prove_tautology %s' % B.show_ext(T.tup(s[1]))
             return ' '.join(str(x) for x in s)
@@ -259,6 +259,6 @@ def _renumber(sc, r, keep):
         s = r['steps'][old]
         if s[0] == 'mp': s = ['mp', ren[s[1]], ren[s[2]]]
         elif s[0] in ('gen', 'inst', 'pinst'): s = [s[0], ren[s[1]]] + list(s[2:])
-        elif s[0] == 'lib': s = ['lib', s[1], [a if a[0] == 'p' else ['t', ren[a[1]]] for a in s[2]]]
+        elif s[0] == 'lib': s = ['lib', s[1], [a if a[0] in ('p', 'v') else ['t', ren[a[1]]] for a in s[2]]]
         ns.append(s)
     return dict(sc, recipe=dict(r, steps=ns, claims=[ren[c] for c in r['claims'] if c in ren]))
